@@ -54,6 +54,10 @@ func exponentOutOfRange(exp *big.Int) bool {
 //
 // @operator concatenate "&"
 var Concatenate = textualBinary(func(env envs.Environment, text1 *types.XText, text2 *types.XText) types.XValue {
+	if len(text1.Native())+len(text2.Native()) > types.MaxTextLength {
+		return types.NewXErrorf("text value would be longer than %d bytes", types.MaxTextLength)
+	}
+
 	var buffer strings.Builder
 	buffer.WriteString(text1.Native())
 	buffer.WriteString(text2.Native())
